@@ -10,7 +10,7 @@ Three parts:
      k-shifted text through the functions the server runs per edit, and the cached diagnostics are compared;
   3. proof gate for the theorems of Props/C07.v.
 """
-import json, os, re
+import json, os, re, threading
 import vlib
 from vlib import cstr, clist, copt, cZ
 from common import proof_gate, proof_coverage
@@ -204,26 +204,38 @@ def _directive(rng, rule):
     return None, ' # regal ignore:some-other-rule'                # names another rule: still reported
 
 
+COMMENT_MODES = ['full', 'none', 'above']
+
+
 def gen_workspace(rng, idx, config):
     """a small workspace: 2-4 packages importing each other, with violations of aggregate rules (unresolved-import,
     prefer-package-imports, circular-import, impossible-not; missing-metadata / no-defined-entrypoint by themselves)
     and of single-file rules, each reported or suppressed by an inline ignore directive; a random number of
-    comment lines in front so that rows cross digit boundaries for different k"""
+    comment lines in front so that rows cross digit boundaries for different k.
+
+    Comments carry locations of their own (and the server compares parsed modules), so the files of a workspace
+    rotate through three comment modes: 'full' (head comments, METADATA, inline directives, TODO comments anywhere),
+    'none' (not a single comment: no directive, nothing suppressed, no todo-comment finding) and 'above' (comments
+    only in front of the package clause: every insertion point further down has all comments above it)."""
     n = 2 + rng.below(3)
     pkgs = ['p%d' % i for i in range(n)]
-    files = {}
+    files, modes = {}, {}
     for i, pkg in enumerate(pkgs):
+        mode = COMMENT_MODES[(idx + i) % 3]
         head, imports, rules = [], [], []
 
         def put(dst, line, rule):
-            above, trail = _directive(rng, rule)
+            above, trail = _directive(rng, rule)     # drawn in every mode: the PRNG sequence does not depend on the mode
+            if mode != 'full':
+                above, trail = None, ''
             if above is not None:
                 dst.append(line[:len(line) - len(line.lstrip())] + above)
             dst.append(line + trail)
 
         for j in range(rng.below(9)):
-            head.append('# note %d about %s' % (j, pkg))
-        if rng.below(4) == 0:
+            if mode != 'none':
+                head.append('# note %d about %s' % (j, pkg))
+        if rng.below(4) == 0 and mode != 'none':
             head += ['# METADATA', '# title: %s' % pkg, '# description: package %s' % pkg]
         others = [p for p in pkgs if p != pkg]
         # --- aggregate rules
@@ -250,7 +262,10 @@ def gen_workspace(rng, idx, config):
                 put(rules, '\tprint("x", input.x)', 'print-or-trace-call')
                 rules.append('}')
             elif kind == 1:
-                put(rules, '# TODO: tidy %s' % pkg, 'todo-comment')
+                if mode == 'full':
+                    put(rules, '# TODO: tidy %s' % pkg, 'todo-comment')
+                else:
+                    _directive(rng, 'todo-comment')
                 rules.append('tidy%d := 1' % i)
             elif kind == 2:
                 put(rules, 'camelCase%d := 2' % i, 'prefer-snake-case')
@@ -268,21 +283,72 @@ def gen_workspace(rng, idx, config):
         body = ['', 'helper(x) := x', '', 'members contains m if some m in input.ms', '', 'flag if input.flag']
         text = '\n'.join(head + ['package %s' % pkg, ''] + imports + rules + body) + '\n'
         files['%s/%s.rego' % (pkg, pkg)] = text
-    return {'name': 'ws%d' % idx, 'files': files, 'config': config, 'ks': LSP_KS}
+        modes['%s/%s.rego' % (pkg, pkg)] = mode
+    ws = {'name': 'ws%d' % idx, 'files': files, 'config': config, 'ks': LSP_KS, 'comment_modes': modes}
+    add_layout_edits(rng, ws)
+    return ws
+
+
+def chunk_starts(text):
+    """0-based indices of the lines that start a top-level chunk: a non-empty line after an empty one, outside of raw
+    strings (blank lines there would change the module). Inserting blank lines in front of such a line changes nothing
+    but the layout (a METADATA block stays attached: it starts the chunk)."""
+    lines = text.split('\n')
+    out, in_raw = [], False
+    for i, l in enumerate(lines):
+        if i > 0 and not in_raw and lines[i - 1] == '' and l != '' and not l.startswith((' ', '\t', '}', ']', ')')):
+            out.append(i)
+        if l.count('`') % 2 == 1:
+            in_raw = not in_raw
+    return out
+
+
+def add_layout_edits(rng, ws, quick=True):
+    """the edits besides 'k blank lines at the top': k blank lines before a chunk in the middle of the file (quick: the
+    first chunk after the package clause with k = 1 and one more chosen by the seed with k = 10; thorough: up to four chunks, every
+    k) and k trailing blank lines"""
+    cuts = {}
+    for name in sorted(ws['files']):
+        cs = chunk_starts(ws['files'][name])
+        if not cs:
+            cuts[name] = []
+            continue
+        pick = [cs[0], cs[rng.below(len(cs))], cs[-1]] if quick else [cs[0]] + [cs[rng.below(len(cs))] for _ in range(2)] + [cs[-1]]
+        if quick:
+            pick = pick[:2]
+        cuts[name] = sorted(set(pick))
+    ws['cuts'] = cuts
+    ws['mid_ks'] = [1, 10] if quick else LSP_KS
+    ws['mid_cross'] = not quick
+    ws['tail_ks'] = [3] if quick else [1, 100]
+    return ws
 
 
 def lsp_shift_workspaces(ctx):
     rng = vlib.SplitMix(ctx.seed ^ 0xC07A)
     n = 3 if ctx.quick() else 24
-    wss = [gen_workspace(rng, i, CONFIG_ALL if i % 3 == 2 else '') for i in range(n)]
+    wss = []
+    for i in range(n):
+        ws = gen_workspace(rng, i, CONFIG_ALL if i % 3 == 2 else '')
+        if not ctx.quick():
+            add_layout_edits(vlib.SplitMix(ctx.seed ^ 0xC07B ^ i), ws, quick=False)
+        wss.append(ws)
     # a fixed one: the smallest shape of each aggregate rule next to its ignored twin
-    wss.append({'name': 'fixed', 'config': '', 'ks': LSP_KS, 'files': {
+    wss.append(add_layout_edits(rng, {'name': 'fixed', 'config': '', 'ks': LSP_KS, 'files': {
         'a/a.rego': 'package a\n\nimport data.b\nimport data.nowhere.x\nimport data.nowhere.y # regal ignore:unresolved-import\n'
                     'import data.b.helper # regal ignore:prefer-package-imports\n\nr if x.q == y.q\n\ns if helper(b.flag)\n\n'
                     't if {\n\t# regal ignore:impossible-not\n\tnot b.members\n}\n\nu if {\n\tnot b.members\n}\n\nflag if input.a\n',
         'b/b.rego': '# about b\npackage b\n\nimport data.a # regal ignore:circular-import\n\nhelper(x) := x\n\nmembers contains m if some m in input.ms\n\n'
                     'flag if a.flag\n\nprint_it if {\n\tprint(2)\n\tprint(1) # regal ignore:print-or-trace-call\n}\n',
-    }})
+    }}, quick=ctx.quick()))
+    # and its comment-free twin: the same rules with nothing suppressed (an edit of such a file re-parses to a module that
+    # differs from the cached one in its locations only), every rule enabled
+    wss.append(add_layout_edits(rng, {'name': 'fixed-comment-free', 'config': CONFIG_ALL, 'ks': LSP_KS, 'files': {
+        'a/a.rego': 'package a\n\nimport data.b\nimport data.nowhere.x\nimport data.b.helper\n\nr if x.q == 1\n\ns if helper(b.flag)\n\n'
+                    'u if {\n\tnot b.members\n}\n\nassigned = 3\n\ncamelCase := 2\n\nflag if input.a\n',
+        'b/b.rego': 'package b\n\nimport data.a\n\nhelper(x) := x\n\nmembers contains m if some m in input.ms\n\n'
+                    'flag if a.flag\n\nprint_it if {\n\tprint(2)\n}\n\ndup := 4\n\ndup := 4\n',
+    }}, quick=ctx.quick()))
     return wss
 
 
@@ -305,28 +371,34 @@ def lsp_overlay(ctx, cases, workspaces):
 
 
 def report_lsp_shift(ctx, shift):
-    """verdicts of the end-to-end LSP k-shift scenarios: one violation per (kind, rule)"""
+    """verdicts of the end-to-end LSP layout-edit scenarios: one violation per (kind, rule, kind of edit)"""
     seen = set()
     for ws in shift:
         for it in ws.get('issues') or []:
             d = it.get('diag') or {}
+            ed = it.get('edit') or {'kind': 'top', 'row': 0, 'k': it['k']}
             sig = {'kind': 'lsp-shift-' + it['kind'], 'key': d.get('code') or it.get('err', '')[:80]}
+            if ed['kind'] != 'top':
+                sig['key'] += ' (%s)' % ed['kind']
             if json.dumps(sig) in seen:
                 continue
             seen.add(json.dumps(sig))
             what = {
-                'missing-after-edit': 'a diagnostic of %s disappears' % d.get('code'),
-                'extra-after-edit': 'a diagnostic of %s appears (or does not move by k lines)' % d.get('code'),
+                'missing-after-edit': 'a diagnostic of %s disappears (or does not move as the lines do)' % d.get('code'),
+                'extra-after-edit': 'a diagnostic of %s appears (or does not move as the lines do)' % d.get('code'),
                 'other-file-changed': 'the diagnostics of ANOTHER file (%s) change' % (it.get('other') or 'workspace root'),
                 'outside-file': 'a diagnostic of %s lies outside the file or ends before it starts' % d.get('code'),
                 'error': 'the per-edit lint fails: %s' % it.get('err', '')[:200],
             }[it['kind']]
-            vlib.violation(ctx, {'kind': 'lsp-shift', 'lsp_workspace': {'name': ws['name'] + '-replay', 'files': it['files'], 'config': it.get('config', ''),
-                                                                         'ks': [it['k']], 'edit': [it['file']]},
-                                 'issue': it['kind'], 'file': it['file'], 'k': it['k'], 'diagnostic': d, 'minimised': it.get('minimised', False),
+            rws = {'name': ws['name'] + '-replay', 'files': it['files'], 'config': it.get('config', ''), 'edit': [it['file']],
+                   'ks': [ed['k']] if ed['kind'] == 'top' else [], 'cuts': {it['file']: [ed['row']]} if ed['kind'] == 'mid' else {},
+                   'mid_ks': [ed['k']] if ed['kind'] == 'mid' else [], 'mid_cross': True, 'tail_ks': [ed['k']] if ed['kind'] == 'tail' else []}
+            vlib.violation(ctx, {'kind': 'lsp-shift', 'lsp_workspace': rws,
+                                 'issue': it['kind'], 'file': it['file'], 'k': it['k'], 'edit': ed, 'diagnostic': d, 'minimised': it.get('minimised', False),
                                  'before_edit': it.get('before'), 'after_edit': it.get('after'),
-                                 'what': 'language server: after replacing %s by the same text with %d blank lines on top (updateParse, updateFileDiagnostics, '
-                                         'aggregate-report-only updateAllDiagnostics) %s' % (it['file'], it['k'], what)},
+                                 'what': 'language server: after replacing %s by the same text with %s (updateParse, updateFileDiagnostics, '
+                                         'aggregate-report-only updateAllDiagnostics) %s; every diagnostic at or below the insertion point has to '
+                                         'move by k lines, the others stay' % (it['file'], it.get('edit_text') or '%d blank lines at the top' % it['k'], what)},
                            signature=sig)
 
 
@@ -340,60 +412,82 @@ def run(ctx):
         if rp.get('modules'):
             replay_modules = rp['modules']
 
-    # ---------------- 1. helper correspondence -------------------------------------------------------
-    hout = os.path.join(ctx.tmp, 'helpers.jsonl')
-    rc, log = vlib.run([h, 'helpers', hout, ctx.tier], env=env, timeout=900)
-    if rc != 0:
-        if 'panic:' in log or 'fatal error:' in log:
-            # the helper process died inside OPA / a regal builtin: that is a crash of the code under test
-            vlib.violation(ctx, {'kind': 'panic', 'what': 'evaluating the framework helpers through OPA crashed the process',
-                                 'log': log[:3000]}, no_input=True)
-        else:
-            raise RuntimeError('c07 helper evaluation failed: ' + log[-2000:])
-    cases = [json.loads(l) for l in open(hout)] if os.path.exists(hout) else []
-    # the language server: range conversion (correspondence) and the end-to-end k-shift of its diagnostics (predicate)
-    workspaces = lsp_shift_workspaces(ctx)
-    if ctx.replay and rp.get('lsp_workspace'):
-        workspaces = [rp['lsp_workspace']]
-    elif ctx.replay and replay_modules is not None:
-        workspaces = None
-    lsp, lsp_log, lsp_shift = run_lsp(ctx, workspaces)
-    if lsp is None:
-        vlib.violation(ctx, {'kind': 'correspondence', 'relation': 'convertReportToDiagnostics uses getRangeForViolation', 'log': lsp_log[-1500:]}, no_input=True)
-        lsp = []
-    if workspaces is not None and lsp_shift is None:
-        m = re.search(r'(panic: [^\n]*|fatal error: [^\n]*)', lsp_log)
-        vlib.violation(ctx, {'kind': 'panic', 'what': 'the per-edit lint functions of the language server crash on the k-shift workspaces: ' + (m.group(1) if m else ''),
-                             'lsp_workspaces': workspaces, 'log': lsp_log[:3000]}, signature={'kind': 'panic', 'key': (m.group(1) if m else 'panic')[:120]})
-        lsp_shift = []
-    lsp_shift = lsp_shift or []
-    report_lsp_shift(ctx, lsp_shift)
-    cases += lsp
-    coq, keep, unrep = [], [], []
-    for c in cases:
-        t = case_to_coq(c)
-        if t is None:
-            unrep.append(c)
-        else:
-            coq.append(t)
-            keep.append(c)
-    ev, cout = shared.eval_cases(ctx, 'Cases_C07', 'From Regal Require Import Check.C07Check.', 'c07case', coq,
-                                 ['case_agrees', 'case_meets_spec'], ['case_in_domain'])
-    r1 = r2 = None
-    in_dom = 0
-    if ev is not None:
-        r1, r2 = ev[0]['case_agrees'], ev[0]['case_meets_spec']
-        in_dom = ev[1]['case_in_domain']
-    if r1 is None or r2 is None:
-        if ctx.proofs_ok:
-            raise RuntimeError('case evaluation failed:\n' + cout[-3000:])
-        r1, r2 = [], []   # the model itself does not compile: the proof gate reports it
+    # the corpus run (part 2) is a process tree of its own: it runs next to the helper evaluation and the overlay tests
+    # of the language server (part 1 and the LSP scenarios), which are mostly compilation and single Lint calls
+    corpus_box = {}
+    corpus_thread = None
+    if not (ctx.replay and replay_modules is None and rp.get('lsp_workspace')):
+        def corpus_job():
+            try:
+                corpus_box['summ'] = shared.run_corpus(ctx, h, 'C07', replay_modules)
+            except BaseException as e:      # re-raised in the main thread
+                corpus_box['err'] = e
+        corpus_thread = threading.Thread(target=corpus_job)
+        corpus_thread.start()
+
+    try:
+        # ---------------- 1. helper correspondence -------------------------------------------------------
+        hout = os.path.join(ctx.tmp, 'helpers.jsonl')
+        rc, log = vlib.run([h, 'helpers', hout, ctx.tier], env=env, timeout=900)
+        if rc != 0:
+            if 'panic:' in log or 'fatal error:' in log:
+                # the helper process died inside OPA / a regal builtin: that is a crash of the code under test
+                vlib.violation(ctx, {'kind': 'panic', 'what': 'evaluating the framework helpers through OPA crashed the process',
+                                     'log': log[:3000]}, no_input=True)
+            else:
+                raise RuntimeError('c07 helper evaluation failed: ' + log[-2000:])
+        cases = [json.loads(l) for l in open(hout)] if os.path.exists(hout) else []
+        # the language server: range conversion (correspondence) and the end-to-end k-shift of its diagnostics (predicate)
+        workspaces = lsp_shift_workspaces(ctx)
+        if ctx.replay and rp.get('lsp_workspace'):
+            workspaces = [rp['lsp_workspace']]
+        elif ctx.replay and replay_modules is not None:
+            workspaces = None
+        lsp, lsp_log, lsp_shift = run_lsp(ctx, workspaces)
+        if lsp is None:
+            vlib.violation(ctx, {'kind': 'correspondence', 'relation': 'convertReportToDiagnostics uses getRangeForViolation', 'log': lsp_log[-1500:]}, no_input=True)
+            lsp = []
+        if workspaces is not None and lsp_shift is None:
+            m = re.search(r'(panic: [^\n]*|fatal error: [^\n]*)', lsp_log)
+            vlib.violation(ctx, {'kind': 'panic', 'what': 'the per-edit lint functions of the language server crash on the k-shift workspaces: ' + (m.group(1) if m else ''),
+                                 'lsp_workspaces': workspaces, 'log': lsp_log[:3000]}, signature={'kind': 'panic', 'key': (m.group(1) if m else 'panic')[:120]})
+            lsp_shift = []
+        lsp_shift = lsp_shift or []
+        report_lsp_shift(ctx, lsp_shift)
+        cases += lsp
+        coq, keep, unrep = [], [], []
+        for c in cases:
+            t = case_to_coq(c)
+            if t is None:
+                unrep.append(c)
+            else:
+                coq.append(t)
+                keep.append(c)
+        ev, cout = shared.eval_cases(ctx, 'Cases_C07', 'From Regal Require Import Check.C07Check.', 'c07case', coq,
+                                     ['case_agrees', 'case_meets_spec'], ['case_in_domain'])
+        r1 = r2 = None
+        in_dom = 0
+        if ev is not None:
+            r1, r2 = ev[0]['case_agrees'], ev[0]['case_meets_spec']
+            in_dom = ev[1]['case_in_domain']
+        if r1 is None or r2 is None:
+            if ctx.proofs_ok:
+                raise RuntimeError('case evaluation failed:\n' + cout[-3000:])
+            r1, r2 = [], []   # the model itself does not compile: the proof gate reports it
+
+    except BaseException:
+        if corpus_thread:
+            corpus_thread.join()    # never leave the harness processes behind
+        raise
 
     # ---------------- 2. end to end over the corpora ------------------------------------------------
-    if ctx.replay and replay_modules is None and rp.get('lsp_workspace'):
+    if corpus_thread is None:
         summ = {'results': [], 'counts': {'replay_lsp_workspace': 1}}   # replay of an LSP scenario: no corpus run
     else:
-        summ = shared.run_corpus(ctx, h, 'C07', replay_modules)
+        corpus_thread.join()
+        if 'err' in corpus_box:
+            raise corpus_box['err']
+        summ = corpus_box['summ']
     # a lint error on a parseable module is C03's subject (tools/check C03 reports it); here the module is
     # only counted as not checked (evidence: corpus.lint_failures_by_signature)
     loc_issues, shift_issues = shared.collect_location_issues(summ)
@@ -459,6 +553,9 @@ def run(ctx):
         'corpus': st,
         'lsp_shift': {
             'workspaces': len(lsp_shift), 'edits': sum(w.get('edits', 0) for w in lsp_shift),
+            'edits_by_kind': {k: sum((w.get('edits_by_kind') or {}).get(k, 0) for w in lsp_shift) for k in ('top', 'mid', 'tail')},
+            'comment_free_files': sum(len(w.get('comment_free_files') or []) for w in lsp_shift),
+            'files': sum(len(w.get('baseline') or {}) - 1 for w in lsp_shift if w.get('baseline')),
             'diagnostic_edit_pairs': sum(w.get('compared', 0) for w in lsp_shift),
             'baseline_diagnostics_by_rule': {k: sum((w.get('by_code') or {}).get(k, 0) for w in lsp_shift)
                                              for k in sorted({k for w in lsp_shift for k in (w.get('by_code') or {})})},
